@@ -209,7 +209,7 @@ func addRandomMidConnects(rg *rand.Rand, sc *scen.Scenario) {
 		}
 		act := scen.Alphabet[rg.IntN(len(scen.Alphabet))]
 		if rg.IntN(2) == 0 { // the action this very visit returns
-			if v := p.visit; v < len(sc.Nodes[p.node].Visits) && sc.Nodes[p.node].Visits[v].Post != "" {
+			if v := p.visit; v < len(sc.Nodes[p.node].Visits) && sc.Nodes[p.node].Visits[v].Post != "" && sc.Nodes[p.node].Visits[v].Post != scen.EndAction {
 				act = sc.Nodes[p.node].Visits[v].Post
 			}
 		}
